@@ -331,6 +331,14 @@ class Ctx:
                 extra = set(ax) - ALLOWED_AXIOMS
                 if extra:
                     raise InfraError(f"theorem {t} depends on non-standard axioms {extra}")
+            if self.tier == "thorough" and imports:
+                # independent re-check of the compiled proofs
+                t0 = time.time()
+                p = subprocess.run(["lake", "env", "leanchecker"] + list(imports), cwd=LEAN, capture_output=True,
+                                   text=True, timeout=3000)
+                self.extra["leanchecker"] = {"modules": list(imports), "rc": p.returncode, "wall_s": round(time.time() - t0, 1)}
+                if p.returncode != 0:
+                    raise InfraError(f"leanchecker rejected {imports}: {(p.stdout + p.stderr)[-400:]}")
 
     def driver(self, lines: list[str], timeout: int = 1800, entry: str = "Driver.lean") -> list[str]:
         """run a Lean model driver (`lean/<entry>`) on request lines; one response per line
